@@ -33,12 +33,39 @@ pub const MOVE: u8 = 2;
 /// requests only (not on what the system allocator happens to do)
 pub const RECYCLE: u8 = 3;
 
-pub fn mode_name(m: u8) -> &'static str {
+/// `SCATTER0 + n` (n in 0..240): as PLAIN, but every small block the *interpreter* asks for (64 bytes
+/// or less, alignment 8 or less, not requested from inside one of the simulator's hooks) is placed at
+/// an address whose low eight bits are a function of (n, how many such blocks the thread has asked
+/// for since the mode was set): 0, 8, 16 ... 248 modulo 256, a quarter of them exactly on a 256-byte
+/// boundary. The system block behind it is 256-aligned, so the low bits do not depend on what the
+/// system allocator does, and a replay repeats them. Code whose result depends on the low bits of a
+/// box address (a tag or fast-path test on pointer bits, a hash of an address) then gives a different
+/// result than under PLAIN, where every small block lies at 8 modulo 16.
+pub const SCATTER0: u8 = 16;
+
+pub fn is_scatter(m: u8) -> bool {
+    m >= SCATTER0
+}
+
+pub fn mode_name(m: u8) -> String {
+    match m {
+        PLAIN => "plain".into(),
+        POISON => "poison".into(),
+        RECYCLE => "recycle".into(),
+        MOVE => "move".into(),
+        n if n >= SCATTER0 => format!("scatter{}", n - SCATTER0),
+        _ => "move".into(),
+    }
+}
+
+/// the name without the scatter number (for counters)
+pub fn mode_class(m: u8) -> &'static str {
     match m {
         PLAIN => "plain",
         POISON => "poison",
         RECYCLE => "recycle",
-        _ => "move",
+        MOVE => "move",
+        _ => "scatter",
     }
 }
 
@@ -47,7 +74,10 @@ pub fn mode_from_name(s: &str) -> u8 {
         "poison" => POISON,
         "move" => MOVE,
         "recycle" => RECYCLE,
-        _ => PLAIN,
+        _ => match s.strip_prefix("scatter").and_then(|n| n.parse::<u8>().ok()) {
+            Some(n) if n < 240 => SCATTER0 + n,
+            _ => PLAIN,
+        },
     }
 }
 
@@ -73,6 +103,57 @@ thread_local! {
     static CACHE_LEN: Cell<usize> = const { Cell::new(0) };
     static CACHE_CAP: Cell<usize> = const { Cell::new(0) };
     static RECYCLED: Cell<u64> = const { Cell::new(0) };
+    static SCATTER_N: Cell<u64> = const { Cell::new(0) };
+    static SCATTERED: Cell<u64> = const { Cell::new(0) };
+    static IN_HOOK: Cell<u32> = const { Cell::new(0) };
+}
+
+/// Marks the time the thread spends inside one of the simulator's hooks: blocks requested there are
+/// the harness's own and are neither scattered nor counted for the scatter sequence (how many the
+/// harness needs depends on what earlier scenarios left in its tables, which a replay does not share).
+pub struct HookGuard;
+
+pub fn in_hook() -> HookGuard {
+    let _ = IN_HOOK.try_with(|c| c.set(c.get() + 1));
+    HookGuard
+}
+
+impl Drop for HookGuard {
+    fn drop(&mut self) {
+        let _ = IN_HOOK.try_with(|c| c.set(c.get().saturating_sub(1)));
+    }
+}
+
+pub fn scattered() -> u64 {
+    SCATTERED.with(|c| c.get())
+}
+
+/// offset (8 ..= 256, a multiple of 8) of the next scattered block of this thread, if the request qualifies
+#[inline]
+fn scatter_offset(layout: Layout) -> Option<usize> {
+    let m = mode();
+    if cfg!(miri) || m < SCATTER0 || layout.size() > 64 || layout.align() > 8 {
+        return None;
+    }
+    if IN_HOOK.try_with(|c| c.get()).unwrap_or(1) != 0 {
+        return None;
+    }
+    let n = SCATTER_N.try_with(|c| {
+        let n = c.get();
+        c.set(n + 1);
+        n
+    })
+    .ok()?;
+    let mut h = (n.wrapping_add(1)).wrapping_mul(0x9E37_79B9_7F4A_7C15) ^ ((m as u64) << 32 | m as u64).wrapping_mul(0xD6E8_FEB8_6659_FD93);
+    h ^= h >> 29;
+    h = h.wrapping_mul(0xBF58_476D_1CE4_E5B9);
+    h ^= h >> 32;
+    let _ = SCATTERED.try_with(|c| c.set(c.get() + 1));
+    Some(match h & 3 {
+        0 => 256,
+        1 => 8,
+        _ => 8 * (1 + ((h >> 8) % 32) as usize),
+    })
 }
 
 /// the mode `reset_mode` goes back to (a session in recycle mode keeps it between its lines)
@@ -179,6 +260,9 @@ fn mode() -> u8 {
 
 pub fn set_mode(m: u8) {
     MODE.with(|c| c.set(m));
+    if m >= SCATTER0 {
+        SCATTER_N.with(|c| c.set(0));
+    }
 }
 
 pub fn live_blocks() -> i64 {
@@ -203,16 +287,52 @@ fn count(blocks: i64, bytes: i64) {
     let _ = LIVE_BYTES.try_with(|c| c.set(c.get() + bytes));
 }
 
-/// The system block behind a user block: (layout to ask the system allocator for, offset of the user
-/// block inside it). Depends on the layout only, so `dealloc` and `realloc` can recompute it.
+/// Whether blocks of this layout carry a header word in the 8 bytes in front of them (it records the
+/// offset of the block inside its system block, so that `dealloc` and `realloc` find the system block
+/// whatever the mode was when the block was made).
 #[inline]
-fn sys_layout(layout: Layout) -> (Layout, usize) {
-    if !cfg!(miri) && layout.align() <= 8 {
-        // 8 bytes into a 16-aligned block
-        (unsafe { Layout::from_size_align_unchecked(layout.size() + 8, 16) }, 8)
-    } else {
-        (layout, 0)
+fn has_header(layout: Layout) -> bool {
+    !cfg!(miri) && layout.align() <= 8
+}
+
+const SCATTER_BIT: u64 = 1 << 32;
+
+/// The system block behind a user block, from its header word.
+#[inline]
+fn sys_layout_of(layout: Layout, header: u64) -> (Layout, usize) {
+    let off = (header & 0xFFFF) as usize;
+    unsafe {
+        if header & SCATTER_BIT != 0 {
+            (Layout::from_size_align_unchecked(layout.size() + 264, 256), off)
+        } else {
+            // 8 bytes into a 16-aligned block
+            (Layout::from_size_align_unchecked(layout.size() + 8, 16), 8)
+        }
     }
+}
+
+/// (system layout, offset, header word) for a new block of this layout
+#[inline]
+fn place(layout: Layout) -> (Layout, usize, u64) {
+    if !has_header(layout) {
+        return (layout, 0, 0);
+    }
+    let header = match scatter_offset(layout) {
+        Some(off) => SCATTER_BIT | off as u64,
+        None => 8,
+    };
+    let (sl, off) = sys_layout_of(layout, header);
+    (sl, off, header)
+}
+
+/// (system layout, offset) of an existing block
+#[inline]
+unsafe fn locate(ptr: *mut u8, layout: Layout) -> (Layout, usize) {
+    if !has_header(layout) {
+        return (layout, 0);
+    }
+    let header = (ptr.sub(8) as *const u64).read();
+    sys_layout_of(layout, header)
 }
 
 unsafe fn park(ptr: *mut u8, layout: Layout) {
@@ -271,7 +391,7 @@ pub fn flush_parked() {
 
 unsafe impl GlobalAlloc for SimAlloc {
     unsafe fn alloc(&self, layout: Layout) -> *mut u8 {
-        let (sl, off) = sys_layout(layout);
+        let (sl, off, header) = place(layout);
         let mut base = if mode() == RECYCLE { cache_take(sl) } else { std::ptr::null_mut() };
         if base.is_null() {
             base = System.alloc(sl);
@@ -280,6 +400,9 @@ unsafe impl GlobalAlloc for SimAlloc {
             return base;
         }
         let p = base.add(off);
+        if off != 0 {
+            (p.sub(8) as *mut u64).write(header);
+        }
         count(1, layout.size() as i64);
         fill(p, layout.size());
         p
@@ -287,36 +410,47 @@ unsafe impl GlobalAlloc for SimAlloc {
 
     unsafe fn dealloc(&self, ptr: *mut u8, layout: Layout) {
         count(-1, -(layout.size() as i64));
-        let (sl, off) = sys_layout(layout);
+        let (sl, off) = locate(ptr, layout);
         let base = ptr.sub(off);
         match mode() {
-            PLAIN => System.dealloc(base, sl),
             RECYCLE => {
                 if !cache_put(base, sl) {
                     System.dealloc(base, sl)
                 }
             }
-            _ => park(base, sl),
+            POISON | MOVE => park(base, sl),
+            _ => System.dealloc(base, sl),
         }
     }
 
     unsafe fn realloc(&self, ptr: *mut u8, layout: Layout, new_size: usize) -> *mut u8 {
-        let (sl, off) = sys_layout(layout);
+        let (sl, off) = locate(ptr, layout);
         let base = ptr.sub(off);
-        if mode() == MOVE {
-            let new_layout = Layout::from_size_align_unchecked(new_size, layout.align());
-            let (nsl, noff) = sys_layout(new_layout);
+        let new_layout = Layout::from_size_align_unchecked(new_size, layout.align());
+        if mode() == MOVE || sl.align() > 16 || (is_scatter(mode()) && has_header(layout)) {
+            // a new block (placed by the rules of the current mode), copy, give up the old one
+            let moving = mode() == MOVE;
+            let (nsl, noff, header) = place(new_layout);
             let new_base = System.alloc(nsl);
             if new_base.is_null() {
                 return new_base;
             }
             let new_ptr = new_base.add(noff);
+            if noff != 0 {
+                (new_ptr.sub(8) as *mut u64).write(header);
+            }
             std::ptr::copy_nonoverlapping(ptr, new_ptr, layout.size().min(new_size));
             if new_size > layout.size() {
                 fill(new_ptr.add(layout.size()), new_size - layout.size());
             }
-            park(base, sl);
-            let _ = MOVES.try_with(|c| c.set(c.get() + 1));
+            if moving || mode() == POISON {
+                park(base, sl);
+            } else {
+                System.dealloc(base, sl);
+            }
+            if moving {
+                let _ = MOVES.try_with(|c| c.set(c.get() + 1));
+            }
             count(0, new_size as i64 - layout.size() as i64);
             new_ptr
         } else {
